@@ -3,6 +3,7 @@ package harness
 import (
 	"flag"
 	"fmt"
+	"os"
 	"runtime/debug"
 	"strconv"
 	"strings"
@@ -34,11 +35,13 @@ func RapidCheck(t *testing.T, n int, salt uint64, prop func(t *rapid.T)) {
 				}
 				// a panic that escaped every oracle: report it rather than crash; if its stack
 				// runs through pion/rtcp it is the code under test that panicked
-				WriteFailIfNone("uncaught-panic", map[string]string{"note": "not replayable: the panic happened outside an oracle; see message"},
-					fmt.Sprintf("PANIC outside an oracle: %v\n%s", r, trimStack(debug.Stack())))
+				reportUncaught(r)
 				panic(r)
 			}
 		}()
+		if os.Getenv("VCHECK_SELFTEST_PANIC") == "harness" {
+			panic("self-test: a panic raised by the harness, not by the code under test")
+		}
 		prop(rt)
 	})
 }
@@ -47,10 +50,23 @@ func RapidCheck(t *testing.T, n int, salt uint64, prop func(t *rapid.T)) {
 // reported failure (with a replay file holding the stack) instead of a dead worker.
 func Uncaught(t *testing.T) {
 	if r := recover(); r != nil {
-		WriteFailIfNone("uncaught-panic", map[string]string{"note": "not replayable: the panic happened outside an oracle; see message"},
-			fmt.Sprintf("PANIC outside an oracle: %v\n%s", r, trimStack(debug.Stack())))
+		reportUncaught(r)
 		t.Fatalf("uncaught panic: %v", r)
 	}
+}
+
+// reportUncaught files a panic that escaped every oracle. Only a panic whose stack runs through
+// the code under test is a finding; one raised by the generators or the harness itself (a bad
+// range in a generator, rapid giving up on an example) says nothing about pion/rtcp: it is
+// printed as INCONCLUSIVE, which the driver turns into exit status 2, never into a VIOLATION.
+func reportUncaught(r interface{}) {
+	stack := string(debug.Stack())
+	if !strings.Contains(stack, "github.com/pion/rtcp.") {
+		fmt.Printf("INCONCLUSIVE harness error (no frame of the code under test on the stack): %v\n%s\n", r, trimStack([]byte(stack)))
+		return
+	}
+	WriteFailIfNone("uncaught-panic", map[string]string{"note": "not replayable: the panic happened outside an oracle; see message"},
+		fmt.Sprintf("PANIC outside an oracle: %v\n%s", r, trimStack([]byte(stack))))
 }
 
 // Guard runs f and converts a panic into an error (with the stack), so that a panic inside
